@@ -487,6 +487,15 @@ func runC02(c *Ctx) {
 	c.connPointersRule("R5")
 	// R6, R7
 	c.panicSafeLocksRule("R6")
+	{
+		var lf []*ssa.Function
+		for _, f := range c.ModFuncs {
+			if f.Package() == c.Client || f.Package() == c.State {
+				lf = append(lf, f)
+			}
+		}
+		c.lockReleasedRule("R6", lf)
+	}
 	c.consumingLoopsRule("R7", p)
 
 	// R4
@@ -568,6 +577,7 @@ func runC11(c *Ctx) {
 	r.Rule("R4", "the cut index is >= 1 at every cut (so the remaining text strictly shrinks: termination and non-empty pieces)")
 	r.Rule("R5", "each loop iteration appends msg[:i] + \"...\" and continues with msg[i:] for the same msg and i; the final append is the remaining msg; nothing else is appended")
 	r.Rule("R6", "Privmsg, Notice, Ctcp, CtcpReply pass only their text and Config.SplitLen to the splitter and send one line per piece")
+	r.Rule("R8", "the pieces keep their order on the way to the wire: the only sender on the outbound queue is Raw's own body, by a plain blocking send on every path (shared with C09.R1) - a piece handed to a helper goroutine or a second queue can be overtaken by the next one")
 	r.Rule("R7", "a piece is not shortened on its way to the wire: the value Raw puts on the outbound queue is its own parameter cut only at the first CR/LF (shared with C09.R1), so the bound, the marker and the text of every piece survive")
 	p := c.NewProver()
 	split := c.Func(c.Client, "splitMessage")
@@ -811,6 +821,7 @@ func runC11(c *Ctx) {
 	// the formatting variants must hand formatted TEXT to the non-formatting sender
 	c.formatHygieneRule("R6")
 	c.enqueueIdentityRule("R7")
+	c.rawSenderRule("R8")
 }
 
 // singleVarargElem: the variadic slice holds exactly one value; return it.
